@@ -373,9 +373,15 @@ def part_a_case(ctx, seed, with_fallback=False):
                     rep.key_identity(rep.decls['in1'], e['args'], e['kwargs']) in present:
                 # never recorded under its own alias, recorded under the fallback alias: the documented policy answers with that
                 ctx.count('probe_calls_answered_through_the_fallback_alias')
-                if not outcome_teq(got, present[rep.key_identity(rep.decls['in1'], e['args'], e['kwargs'])]):
-                    ctx.violation('a call recorded under its fallback alias only was not answered with that recorded value',
-                                  dict(w, decl=d['name'], got=repr(got)[:200]))
+                ident2 = rep.key_identity(rep.decls['in1'], e['args'], e['kwargs'])
+                if not outcome_teq(got, present[ident2]):
+                    if got.kind == 'exc' and isinstance(got.value, RecordingKeyError):
+                        # the same classification as for a call under its own alias (the two listed key findings: aliased arguments, sets)
+                        classify_mismatch(ctx, rep, rep.decls['in1'], e['args'], e['kwargs'], rkeys,
+                                          'a call recorded under its fallback alias only did not find that recorded value', w, recorded_call=rec_args.get(ident2))
+                    else:
+                        ctx.violation('a call recorded under its fallback alias only was not answered with that recorded value',
+                                      dict(w, decl=d['name'], got=repr(got)[:200]))
             else:
                 ctx.count('inequivalent_probe_calls')
                 if not (got.kind == 'exc' and isinstance(got.value, RecordingKeyError)):
